@@ -238,8 +238,18 @@ func init() {
 		return nil
 	})
 	z("Reach", func(e *Engine, fr *frame, a []Value) Value {
+		tag := e.strArg(a[0], "Reach tag")
 		if e.live() || e.Concrete {
-			e.ReachHit[e.strArg(a[0], "Reach tag")]++
+			e.ReachHit[tag]++
+		}
+		seen := false
+		for _, t := range e.pathReach {
+			if t == tag {
+				seen = true
+			}
+		}
+		if !seen {
+			e.pathReach = append(e.pathReach, tag)
 		}
 		return nil
 	})
